@@ -8,28 +8,43 @@ sys.path.insert(0, os.path.dirname(os.path.abspath(__file__)))
 CFG = """CONSTANTS
   Owners = {"o1","o2"}
   Data <- MCData
+  Presets <- MCPresets
   ValidSchemes = {"sha256","x509","sha1"}
   Decodable = {"sha256","x509"}
   Depth = %d
 """
 
 
-def histories_exhaustive(c, depth, small=False):
-    cfg = CFG % depth + "INIT MCInit\nNEXT MCNext\nCONSTRAINT Emit\nCHECK_DEADLOCK FALSE\n"
+PRESETS = {}
+
+
+def _hist(c, r):
+    """Histories printed by a TLC run (lists); the run also prints the preset databases of MC_SigDb (a record) once."""
+    out = []
+    for x in r.json_lines():
+        if isinstance(x, dict) and "presets" in x:
+            PRESETS.update(x["presets"])
+        elif isinstance(x, list):
+            out.append(x)
+    return out
+
+
+def histories_exhaustive(c, depth, small=False, load=False):
+    cfg = CFG % depth + "INIT MCInit\nNEXT %s\nCONSTRAINT Emit\nCHECK_DEADLOCK FALSE\n" % ("MCNextLoaded" if load else "MCNext")
     if small:
         cfg = cfg.replace("Data <- MCData", "Data <- MCDataSmall")
-    r = c.tlc("MC_SigDb", "gen.cfg", files={"gen.cfg": cfg}, name="emit-depth%d%s" % (depth, "-small-universe" if small else ""), timeout=1800, heap="10g")
-    return r.json_lines()
+    r = c.tlc("MC_SigDb", "gen.cfg", files={"gen.cfg": cfg}, name="emit-depth%d%s%s" % (depth, "-small-universe" if small else "", "-loaded" if load else ""), timeout=1800, heap="10g")
+    return _hist(c, r)
 
 
-def histories_simulated(c, depth, num):
-    cfg = CFG % depth + "INIT MCInit\nNEXT MCNext\nCONSTRAINT Emit\nCHECK_DEADLOCK FALSE\n"
+def histories_simulated(c, depth, num, load=False):
+    cfg = CFG % depth + "INIT MCInit\nNEXT %s\nCONSTRAINT Emit\nCHECK_DEADLOCK FALSE\n" % ("MCNextLoaded" if load else "MCNext")
     r = c.tlc("MC_SigDb", "sim.cfg", files={"sim.cfg": cfg}, simulate=num, depth=depth + 1, name="simulate-depth%d" % depth,
               timeout=600, must_pass=False)
     if r.rc not in (0,) and "Error:" in r.out:
         raise vf.FrameworkError("simulation failed: %s" % r.error)
     seen, out = set(), []
-    for h in r.json_lines():
+    for h in _hist(c, r):
         k = repr(h)
         if k not in seen:
             seen.add(k)
@@ -68,12 +83,25 @@ def random_histories(c, n, length):
     return hs
 
 
+def with_presets(s):
+    """A scenario whose history starts from a decoded database carries the abstract form of that database."""
+    if any(op["op"] == "load" for op in s["ops"]):
+        s["presets"] = {op["d"]: PRESETS[op["d"]] for op in s["ops"] if op["op"] == "load"}
+    return s
+
+
 def run(c):
     c.build_worker()
     # 1. design-level check: the specification itself satisfies C09 on the bounded universe
     check_cfg = CFG % (4 if c.quick else 5) + "SPECIFICATION MCSpec\nINVARIANTS WellFormed FlatAgrees\n" \
         "PROPERTIES OthersKept ErrorsChangeNothing AppendAddsOne RemoveDropsOne\nVIEW View\nCHECK_DEADLOCK FALSE\n"
     c.tlc("MC_SigDb", "check.cfg", files={"check.cfg": check_cfg}, name="design-check", coverage=not c.quick, timeout=1500)
+
+    # 1a. the same with databases that were decoded from a stream (repeated entries inside a list / across lists): the list equations always
+    #     hold, no operation introduces a repeated entry into a list that had none
+    loaded_cfg = CFG % (3 if c.quick else 4) + "SPECIFICATION MCSpecL\nINVARIANTS EqAll FlatAgrees\n" \
+        "PROPERTIES OthersKept ErrorsChangeNothing AppendAddsOne RemoveDropsOne NoNewDup\nVIEW View\nCHECK_DEADLOCK FALSE\n"
+    c.tlc("MC_SigDb", "loaded.cfg", files={"loaded.cfg": loaded_cfg}, name="design-check-loaded", timeout=1500)
 
     # 1b. thorough: the same statements for numbers of ANY size and for EVERY well-formed pre-state (not only reachable ones
     #     within the TLC depth): WellFormed as an inductive invariant, error/append/remove statements as action invariants (Apalache)
@@ -102,7 +130,18 @@ def run(c):
         hs += histories_exhaustive(c, 3, small=True)
         hs += histories_simulated(c, 5, 3000) + histories_simulated(c, 9, 2000)
         hs += random_histories(c, 2000, 50)
-    scen = [{"sc": i, "ops": [{k: v for k, v in op.items() if k != "res"} for op in h]} for i, h in enumerate(hs)]
+    # histories that start from a decoded database (MC_SigDb!MCPresets)
+    hl = histories_exhaustive(c, 2, load=True)
+    if c.quick:
+        hl += histories_simulated(c, 4, 150, load=True)
+    else:
+        hl += histories_exhaustive(c, 3, small=True, load=True) + histories_simulated(c, 6, 2000, load=True)
+    rl = random_histories(c, 60 if c.quick else 600, 20)
+    for k, h in enumerate(rl):
+        h.insert(0, {"op": "load", "t": "-", "o": "-", "d": sorted(PRESETS)[k % len(PRESETS)]})
+    hs += hl + rl
+    c.cov["histories_from_loaded_database"] = len(hl) + len(rl)
+    scen = [with_presets({"sc": i, "ops": [{k: v for k, v in op.items() if k != "res"} for op in h]}) for i, h in enumerate(hs)]
     results, deaths = c.run_worker("sigdb", scen, timeout=1800)
     events, owner = [], []
     for s in scen:
